@@ -25,7 +25,7 @@ LEVEL_TEXT = (
 )
 LEVEL_NOTE = "floor(x*samplerate) accepts the float product or the exact product (they differ only on rounding boundaries, counted); PCM-16 WAV through libsndfile only"
 RULE = (
-    "Hypothesis: rate in {1234, 7919, 8000, 11025, 16000, 22050, 44100, 48000, 96000, 192000, 256000}, channels 1-3, 100-20000 frames, time expansion with rate x factor integral; "
+    "Hypothesis: rate from a palette of 21 rates (93 Hz ... 384 kHz, incl. rates such as 7000, 25000, 50000 for which 1/(1/rate) < rate in binary64), channels 1-3, 100-20000 frames, time expansion with rate x factor integral; "
     "clip start/end = k/rate (on boundary), free floats (off boundary), past the end, zero length, start at EOF; resampling targets 1000-192000; window/hop from {whole samples, fractional samples}. "
     "Non-trivial = off-boundary clip start, or a clip reaching past the end, or fractional-sample hop/window, or a non-integer rate ratio."
 )
@@ -38,7 +38,7 @@ def f21(spec, kind, message):
 
 KNOWN = {"F21-chained-resample-drift": f21}
 
-RATES = [1234, 7919, 8000, 11025, 16000, 22050, 44100, 48000, 96000, 192000, 256000]
+RATES = [1234, 7919, 8000, 11025, 16000, 22050, 44100, 48000, 96000, 192000, 256000, 93, 99, 7000, 14000, 25000, 50000, 100000, 200000, 250000, 384000]
 _FILES = {}
 
 
@@ -66,7 +66,7 @@ def rec_spec(draw, max_frames=20000):
     te = draw(st.sampled_from([1.0, 1.0, 1.0, 0.5, 2.0, 5.0, 10.0]))
     if float(int(rate * te)) != rate * te:
         te = 1.0
-    return {"rate": rate, "channels": draw(st.integers(1, 3)), "frames": draw(st.sampled_from([100, 1000, 4410, max_frames, 777])), "te": te}
+    return {"rate": rate, "channels": draw(st.integers(1, 3)), "frames": draw(st.sampled_from([100, 1000, 4410, max_frames, max_frames, 777])), "te": te}
 
 
 def recording(rs):
@@ -208,7 +208,7 @@ def check_clip(spec, ctx):
 
 @st.composite
 def derive_case(draw):
-    rs = draw(rec_spec(max_frames=8000))
+    rs = draw(rec_spec(max_frames=20000))
     sr = int(rs["rate"] * rs["te"])
     n = rs["frames"]
     a = draw(st.integers(0, n // 2))
@@ -258,7 +258,7 @@ def check_derive(spec, ctx):
             ws, hs = w / cur_rate, h / cur_rate
             if w != int(w) or h != int(h):
                 frac = True
-            if int(ws * cur_rate) < 2 or int(ws * cur_rate) > cur.sizes["time"]:
+            if round(w) < 2 or math.ceil(w) > cur.sizes["time"]:
                 ctx.label("window_longer_than_signal_skipped")
                 continue
             out = ctx.call(spec, f"compute_spectrogram(window={w} samples, hop={h} samples @ {cur_rate} Hz)", audio.compute_spectrogram, cur, window_size=ws, hop_size=hs)
@@ -275,5 +275,5 @@ def check_derive(spec, ctx):
 
 SUBS = [
     Sub("load_clip_exact", check_clip, strategy=clip_case, quick=2500, thorough=80000, min_nontrivial=0.3),
-    Sub("derived_axes", check_derive, strategy=derive_case, quick=2000, thorough=60000, min_nontrivial=0.2),
+    Sub("derived_axes", check_derive, strategy=derive_case, quick=1500, thorough=40000, min_nontrivial=0.2),
 ]
